@@ -122,6 +122,8 @@ def _sym_import(name, globals=None, locals=None, fromlist=(), level=0):
             return symmath
         if name == 'time' and globals is not None and globals.get('__name__') in TIME_SHIMMED:
             return symtime
+        if name == 'importlib':
+            return symimportlib
     return builtins.__import__(name, globals, locals, fromlist, level)
 
 
@@ -536,6 +538,27 @@ for _k in dir(_time):
     if not _k.startswith('_'):
         setattr(symtime, _k, getattr(_time, _k))
 symtime.time = stubs.CLOCK.time
+
+
+symimportlib = types.ModuleType('importlib')
+for _k in dir(importlib):
+    if not _k.startswith('_'):
+        setattr(symimportlib, _k, getattr(importlib, _k))
+
+
+def _sym_import_module(name, package=None):
+    if name == 'numpy':
+        return symnp
+    if name == 'numpy.random':
+        return symnp.random
+    if name == 'random':
+        return symrandom
+    if name == 'math':
+        return symmath
+    return importlib.import_module(name, package)
+
+
+symimportlib.import_module = _sym_import_module
 
 
 # ------------------------------------------------------------------ the loader
